@@ -556,6 +556,10 @@ def _fault(env, what):
     if what == "block":            # the link is congested: the transport asks the client to pause writing
         c.block_writes()
         return
+    if what == "blockreset":            # the link is congested: the transport asks the client to pause writing
+        c.block_writes()
+        c.reset_on_close = True      # ... and the far end answers the client's close with a reset
+        return
     if what == "unblock":
         c.unblock_writes()
         return
